@@ -206,7 +206,7 @@ class StepRun:
         r = self.I.call_user(self.P.fns["eval_expr"], [self.env, self.session, ex, sref])
         return r, st[0]
 
-    def drive(self, expr, max_outer_steps=6):
+    def drive(self, expr, max_outer_steps=6, resume_check=True):
         """Play the dispatcher on `expr` until it completes, errors, calls into a new frame or hits the bound."""
         I, ctx = self.I, self.ctx
         entries = self.entries()
@@ -265,6 +265,11 @@ class StepRun:
                 # explore an unrelated state.
                 stv2, ex2 = entries.pop()
                 srec["resumed_same_entry"] = ex2 is ex
+                if not resume_check:
+                    entries.append((stv2, ex2))
+                    srec["resume_kind"] = "not-run"
+                    rec["outcome"] = "error"
+                    break
                 if srec["after_restore"] != before:
                     srec["resume_kind"] = "skipped"
                     rec["outcome"] = "error"
@@ -321,10 +326,13 @@ def jobs(P, max_args=2):
             out.append((f"method:{mk}/{n}", ("method", mk, n)))
     for n in range(0, max_args + 1):
         out.append((f"call-other/{n}", ("other", None, n)))
+    for shape in ("Fun", "Closure"):
+        for n in range(0, max_args + 1):
+            out.append((f"userfun:{shape}/{n}", ("userfun", shape, n)))
     return out
 
 
-def run_job(P, ctx, job, sandbox=False, profile="dev", max_args=2, extra_opaque=()):
+def run_job(P, ctx, job, sandbox=False, profile="dev", max_args=2, extra_opaque=(), toplevel=False, resume_check=True):
     mode, kind, n = job
     _n[0] = 0     # symbol names are a function of the path, so a re-execution of the path meets the same names
     T = Templates(P, ctx, max_args=max_args)
@@ -345,6 +353,29 @@ def run_job(P, ctx, job, sandbox=False, profile="dev", max_args=2, extra_opaque=
                 if "BuiltInFunction" in node.variants:   # built-in receivers are the "fun" jobs
                     ctx.assume(tag != node.variants.index("BuiltInFunction"))
             S.constrain[lab] = not_builtin
+    elif mode == "userfun":
+        S = StepRun(P, ctx, sandbox=sandbox, profile=profile, extra_opaque=extra_opaque)
+        recv_tok = T.sub("recv")
+        expr = T.expression("Call", [recv_tok, T.paren_args(n)])
+        lab = recv_tok.inner.fields["__sub"]
+        m = ctx.choose([True] * (max_args + 1))     # declared parameter count, independent of the argument count
+        params = []
+        for i in range(m):
+            has_hint = ctx.choose([True, True])
+            params.append(Struct("SymbolWithHint", {"symbol": mk_symbol(50 + i, f"p{i}"),
+                                                    "hint": some(Opaque(f"hint{i}")) if has_hint else NONE}))
+        fun_info = Struct("FunInfo", {
+            "pos": Opaque("fpos"), "doc_comment": NONE, "name_sym": some(mk_symbol(40, "uf")), "item_id": NONE,
+            "type_params": Vec([]),
+            "params": Struct("ParenthesizedParameters", {"open_paren": Opaque("op"), "params": Vec(params), "close_paren": Opaque("cp")}),
+            "return_hint": NONE,
+            "body": Struct("Block", {"open_brace": Opaque("ob"), "close_brace": Opaque("cb"), "exprs": Vec([T.sub("body", used=None)])})})
+        if kind == "Fun":
+            S.seeded[lab] = M.mk_value(Enum("Value_", "Fun", {"name_sym": mk_symbol(40, "uf"), "fun_info": fun_info,
+                                                              "runtime_type": Opaque("frt")}))
+        else:
+            S.seeded[lab] = M.mk_value(Enum("Value_", "Closure", [Vec([]), fun_info, Opaque("crt")]))
+        S.userfun_params = [(p.fields["hint"].variant == "Some") for p in params]
     elif mode == "method":
         minfo = Struct("MethodInfo", {"kind": Enum("MethodKind", "BuiltinMethod", [Enum("BuiltInMethodKind", kind, []), NONE]),
                                       "receiver_sym": Opaque("rsym"), "name_sym": Opaque("nsym")}, partial=True)
@@ -371,7 +402,11 @@ def run_job(P, ctx, job, sandbox=False, profile="dev", max_args=2, extra_opaque=
         S.constrain[lab] = recv_is
     ctx._last_expr = expr
     ctx._last_token_values = S.token_values
-    rec = S.drive(expr)
+    ctx._last_userfun_params = getattr(S, "userfun_params", None)
+    if toplevel:
+        # a top-level session frame: a single bindings block
+        del S.frame.fields["bindings"].fields["block_bindings"].items[1:]
+    rec = S.drive(expr, resume_check=resume_check)
     rec = S.finish(rec)
     rec.update({"job": job, "expr": expr, "S": S})
     return rec
@@ -388,22 +423,22 @@ BINOPS = {"Add": "+", "Subtract": "-", "Multiply": "*", "Divide": "/", "Modulo":
           "NotEqual": "!=", "And": "&&", "Or": "||", "StringConcat": "^"}
 
 
-def lit_for(kind, i):
-    """Distinct literal per operand position so swapped operands are observable."""
+def lit_for(kind, i, variant=0):
+    """Distinct literal per operand position so swapped operands are observable; variant 1 = the empty/zero form."""
     if kind == "Int":
-        return str(10 + i)
+        return str(10 + i) if variant == 0 else "0"
     if kind == "Float":
-        return f"{i + 1}.5"
+        return f"{i + 1}.5" if variant == 0 else "0.0"
     if kind == "String":
-        return f'"s{i}"'
+        return f'"s{i}"' if variant == 0 else '""'
     if kind == "List":
-        return f"[{i + 1}, {i + 2}]"
+        return f"[{i + 1}, {i + 2}]" if variant == 0 else "[]"
     if kind == "Tuple":
         return f"({i + 1}, {i + 2})"
     if kind == "Dict":
-        return f'Dict["k{i}" => {i}]'
+        return f'Dict["k{i}" => {i}]' if variant == 0 else "Dict[]"
     if kind == "EnumVariant":
-        return ["True", "False", "None", "Some(3)"][i % 4]
+        return ["True", "False", "None", "Some(3)"][(i + variant) % 4]
     return LITERALS.get(kind)
 
 
@@ -423,7 +458,11 @@ def tok_literal(rec, prefix, default):
                         k = node.variants[idx]
                 except Exception:
                     pass
-            return lit_for(k, i) or (str(10 + i) if default == "1" else default)
+            ov = rec.get("kind_override", {})
+            if k is None or (lab in ov and rec["known_tags"].get(node.id) is None):
+                k = ov.get(lab, k)
+            variant = rec.get("lit_variant", {}).get(lab, 0)
+            return lit_for(k, i, variant) or (str(10 + i) if default == "1" else default)
     return default
 
 
@@ -450,6 +489,14 @@ def snippet(P, rec, names, ns_paths):
                         "Path": 'Path{ p: "/var/tmp/verif-scratch-none/sub/p" }', "String": '"abc"'}[ty]
                 return "", f"{recv}.{mname}({args})"
         return None
+    if mode == "userfun":
+        hints = getattr(rec.get("S"), "userfun_params", None) or rec.get("userfun_params") or []
+        args = ", ".join(tok_literal(rec, f"arg{i}#", "1") for i in range(n))
+        hint_ty = rec.get("hint_type", "String")
+        ps = ", ".join(f"p{i}" + (f": {hint_ty}" if h else "") for i, h in enumerate(hints))
+        if kind == "Fun":
+            return f"fun uf({ps}) {{ 1 }}", f"uf({args})"
+        return f"let uf = fun({ps}) {{ 1 }}", f"uf({args})"
     if mode == "other":
         args = ", ".join(tok_literal(rec, f"arg{i}#", "1") for i in range(n))
         recv = tok_literal(rec, "recv#", "1")
@@ -571,3 +618,33 @@ def check_not_encodable(C, key):
         if label not in allowed:
             C.inconclusive.append(f"step {label} is not encodable on the current source ({why}); it is not in the "
                                   f"committed list of steps outside the claim")
+
+
+def snippet_alternatives(P, rec, names, ns_paths, limit=8):
+    """All Garden renderings of this path's step worth trying natively: operand kinds the path left open are
+    tried as the solver's pick and as String / List / Int; aggregate operands also in their empty form."""
+    out = []
+    base_variants = [{}]
+    if rec["job"][0] == "userfun":
+        base_variants = [{"hint_type": "String"}, {"hint_type": "NoSuchTypeVerif"}]
+    open_labs = [lab for lab, (v, node) in rec["token_values"].items()
+                 if node is not None and rec["known_tags"].get(node.id) is None]
+    agg_labs = [lab for lab, (v, node) in rec["token_values"].items()
+                if node is not None and rec["known_tags"].get(node.id) in ("List", "String", "Dict")]
+    combos = [({}, {})]
+    for lab in open_labs[:2]:
+        combos += [({lab: k}, {}) for k in ("String", "List", "Float")]
+    for lab in agg_labs[:2]:
+        combos += [({}, {lab: 1})]
+    for bv in base_variants:
+        for ko, lv in combos:
+            rec.update(bv)
+            rec["kind_override"], rec["lit_variant"] = ko, lv
+            sn = snippet(P, rec, names, ns_paths)
+            if sn is not None and sn not in out:
+                out.append(sn)
+            if len(out) >= limit:
+                break
+    for k in ("hint_type", "kind_override", "lit_variant"):
+        rec.pop(k, None)
+    return out
